@@ -11,6 +11,7 @@ import (
 	"sort"
 	"strconv"
 	"strings"
+	"syscall"
 	"time"
 
 	"verif/ev"
@@ -114,8 +115,46 @@ func mustMkdir(p string) string {
 func sortStrings(s []string) { sort.Strings(s) }
 
 func execOutput(name string, args ...string) (string, error) {
-	out, err := exec.Command(name, args...).CombinedOutput()
-	return string(out), err
+	out, err, timedOut := runWithDeadline(exec.Command(name, args...), 30*time.Minute)
+	if timedOut {
+		return out, fmt.Errorf("no result after 30 minutes (terminated with SIGQUIT): %v", err)
+	}
+	return out, err
 }
 
 func execCommand(name string, args ...string) *exec.Cmd { return exec.Command(name, args...) }
+
+// runWithDeadline runs cmd; if it has not finished after d it is sent SIGQUIT (a Go program then prints all goroutine
+// stacks and exits), and killed 10 s later if still alive. Returns the combined output.
+func runWithDeadline(cmd *exec.Cmd, d time.Duration) (out string, err error, timedOut bool) {
+	var buf bytes.Buffer
+	cmd.Stdout, cmd.Stderr = &buf, &buf
+	if err := cmd.Start(); err != nil {
+		return "", err, false
+	}
+	done := make(chan error, 1)
+	go func() { done <- cmd.Wait() }()
+	select {
+	case err = <-done:
+		return buf.String(), err, false
+	case <-time.After(d):
+		_ = cmd.Process.Signal(syscall.SIGQUIT)
+		select {
+		case err = <-done:
+		case <-time.After(10 * time.Second):
+			_ = cmd.Process.Kill()
+			err = <-done
+		}
+		return buf.String(), err, true
+	}
+}
+
+// hangInside: a goroutine dump (after SIGQUIT) that shows a goroutine blocked inside the given package
+func hangInside(dump, pkgFilter string) bool {
+	for _, g := range strings.Split(dump, "\n\ngoroutine ") {
+		if strings.Contains(g, pkgFilter) && (strings.Contains(g, "sync.(*Mutex).Lock") || strings.Contains(g, "sync.(*RWMutex)") || strings.Contains(g, "[sync.Mutex.Lock") || strings.Contains(g, "[semacquire") || strings.Contains(g, "[sync.Cond.Wait") || strings.Contains(g, "[chan receive") || strings.Contains(g, "[select")) {
+			return true
+		}
+	}
+	return false
+}
